@@ -543,7 +543,7 @@ func c17Derivable(p *Prog, c *Check) {
 			loops = append(loops, l)
 		}
 	}
-	check := func(name, pat, why string) {
+	check := func(name, pat, why string, alts ...string) {
 		ok := false
 		for _, l := range loops {
 			b := Binds{"d": recv, "i": l.Idx}
@@ -551,7 +551,11 @@ func c17Derivable(p *Prog, c *Check) {
 				ap := ParseAtomPat(ps)
 				return func(a Atom) bool { return ap.Match(a, copyBinds(b)) }
 			}
-			if fi.everyIteration(l, anyOf(m("IsTopic($d.LogPredicates[$i].LogValueRef) == false"), m("$d.LogPredicates[$i].ValuePredicate.Op != 5"), m(pat))) {
+			preds := []func(Atom) bool{m("IsTopic($d.LogPredicates[$i].LogValueRef) == false"), m("$d.LogPredicates[$i].ValuePredicate.Op != 5"), m(pat)}
+			for _, alt := range alts {
+				preds = append(preds, m(alt))
+			}
+			if fi.everyIteration(l, anyOf(preds...)) {
 				// and the function's nil return is reached only by exhausting this loop
 				for _, r := range returnsOf(vf) {
 					if fi.retCompatible(r, []ResultCond{{0, "nil"}}) != no && l.Header.Dominates(r.Block()) && fi.onlyByExhaustion(l, r.Block()) {
@@ -563,7 +567,9 @@ func c17Derivable(p *Prog, c *Check) {
 		c.Result(ok, rule, "Validate:"+name, p.Rel(vf.Pos()), shortFn(vf), "topic BytesEq predicates", why, "every topic BytesEq predicate: "+pat)
 	}
 	check("topic-arg-32-bytes", "len($d.LogPredicates[$i].ValuePredicate.ByteArgs[0]) == 32", "Validate accepts a topic BytesEq predicate whose argument is not 32 bytes although ToFilterQuery fails for it: a valid definition without a derivable filter")
-	check("topic-unique", "ok(_[$d.LogPredicates[$i].LogValueRef.Offset]) == false", "Validate accepts two BytesEq predicates on the same topic although ToFilterQuery fails for them")
+	// membership in the set of topics seen so far: comma-ok lookup, or the value of a map[...]bool
+	check("topic-unique", "ok(_[$d.LogPredicates[$i].LogValueRef.Offset]) == false", "Validate accepts two BytesEq predicates on the same topic although ToFilterQuery fails for them",
+		"_[$d.LogPredicates[$i].LogValueRef.Offset] == false")
 	// ToFilterQuery's error exits are only those two
 	tf, err := p.Func(ssPkg + ".EventTriggerDefinition.ToFilterQuery")
 	if c.Must(err) {
@@ -602,33 +608,62 @@ func c17Operators(p *Prog, c *Check) {
 	}
 	sort.Strings(consts)
 	c.Floor(rule+".constants", len(consts), 6)
-	for _, spec := range []string{".Op.Validate", ".Op.NumIntArgs", ".Op.NumByteArgs", ".ValuePredicate.Match"} {
-		fn, err := p.Func(ssPkg + spec)
-		if !c.Must(err) {
-			continue
+	// Op.Validate accepts exactly the declared operators: for every return, the operator values that can
+	// reach it are computed by elimination from the == / != facts of its path (so a switch, an if-chain
+	// or a default arm are all the same to the rule)
+	fn, err := p.Func(ssPkg + ".Op.Validate")
+	if !c.Must(err) {
+		return
+	}
+	c.Analysed(shortFn(fn))
+	fi := p.Info(fn)
+	opT0 := fi.T(fn.Params[0])
+	compatible := func(facts []Atom) map[string]bool {
+		out := map[string]bool{"other": true}
+		for _, k := range consts {
+			out[k] = true
 		}
-		c.Analysed(shortFn(fn))
-		fi := p.Info(fn)
-		seen := map[string]bool{}
-		for _, b := range fn.Blocks {
-			for _, s := range b.Succs {
-				for _, a := range fi.edgeAtoms(b, s) {
-					if (a.Op == "==" || a.Op == "!=") && a.R.K == TConst {
-						l := stripConv(a.L)
-						if (l.K == TParam && l.Name == "op") || (l.K == TField && l.Name == "Op") {
-							seen[a.R.s] = true
-						}
+		for _, a := range facts {
+			if stripConv(a.L).s != opT0.s || a.R.K != TConst {
+				continue
+			}
+			switch a.Op {
+			case "==":
+				for k := range out {
+					if k != a.R.s {
+						delete(out, k)
 					}
+				}
+			case "!=":
+				delete(out, a.R.s)
+			}
+		}
+		return out
+	}
+	accepts, rejects := map[string]bool{}, map[string]bool{}
+	for _, r := range returnsOf(fn) {
+		nilRet := fi.errIsNil(r.Results[0], r, 0)
+		for _, pf := range fi.pathFactSets(r.Block()) {
+			for k := range compatible(pf) {
+				if nilRet != no {
+					accepts[k] = true
+				}
+				if nilRet != yes {
+					rejects[k] = true
 				}
 			}
 		}
-		var got []string
-		for k := range seen {
-			got = append(got, k)
-		}
-		sort.Strings(got)
-		c.Result(strings.Join(got, ",") == strings.Join(consts, ","), rule, "cases:"+strings.TrimPrefix(spec, "."), p.Rel(fn.Pos()), shortFn(fn), "operator cases", "the operator switch handles {"+strings.Join(got, ",")+"} but the declared operators are {"+strings.Join(consts, ",")+"}", "cases == declared operators")
 	}
+	var bad []string
+	for _, k := range consts {
+		if !accepts[k] || rejects[k] {
+			bad = append(bad, "declared operator "+k+" is not (only) accepted")
+		}
+	}
+	if accepts["other"] {
+		bad = append(bad, "an undeclared operator value is accepted")
+	}
+	c.Result(len(bad) == 0, rule, "cases:Op.Validate", p.Rel(fn.Pos()), shortFn(fn), "operator validation", strings.Join(bad, "; "), "Validate() == nil exactly for the declared operators {"+strings.Join(consts, ",")+"}")
 }
 
 // matchOperatorTable: the value-level semantics of a predicate. Every successful return of
